@@ -4,6 +4,7 @@ CONSTANTS
   MaxWait = 3
   StartOff = 2
   MaxDt = 2
+  MaxRedef = 2
 INVARIANT TypeOK
 INVARIANT CountInv
 INVARIANT WaitInv
